@@ -15,7 +15,8 @@ SizeOps == [op : {"gsize", "hsize", "xsize"}]
 PutOps  == [op : {"gput", "hput", "gget", "hget"}, base : {"zero", "last", "size"}]
 EdgeOps == [op : {"gedge", "hedge"}, base : {"size", "top"}, delta : {-8, -4, -1, 0}, len : {0, 1, 2, 4, 8}] \cup
            [op : {"gedge", "hedge"}, base : {"zero", "last"}, delta : {0}, len : {1, 8}]
-AllOps == GrowOps \cup SizeOps \cup PutOps \cup EdgeOps
+ViewOps == {[op |-> "happend"]}
+AllOps == GrowOps \cup SizeOps \cup PutOps \cup EdgeOps \cup ViewOps
 CoreOps == [op : {"ggrow", "hgrow", "xgrow"}, d : {1, -1, -2}] \cup SizeOps \cup
-           [op : {"gput", "hput", "gget", "hget"}, base : {"last"}]
+           [op : {"gput", "hput", "gget", "hget"}, base : {"last"}] \cup ViewOps
 =============================================================================
